@@ -506,6 +506,30 @@ example : proxyCall .peerContext exP exX .blocking (genParams .blocking) exCli e
     [("context", 0), ("method_name", 1)] none = directCall exObj "echo" [] [("context", 0), ("method_name", 1)] := by
   decide
 
+/-- **A stale token is harmless**: while the object is free, the call equals the direct call *whatever* token the proxy
+still sends (e.g. the token of a lock that somebody else released by hand-over `unlock(lock_token=…)` or
+`force_unlock()`): the admission test is "free, or locked with this token", not "tokens equal" -/
+theorem free_object_accepts_any_token (pl : Placement) (P : Pickle V W) (X : Excs V) (mode : Mode)
+    (cli srv : Node) (cc sc : Conn) (o : Obj V) (iface : List String) (futureAddr objAddr : Addr) (rid attr : String)
+    (args : List V) (kwargs : List (String × V)) (stale : Option Token) (f : List V → List (String × V) → Res V)
+    (hwf : WellFormed pl cli srv cc sc futureAddr objAddr)
+    (hattr : attr ∈ iface) (hm : o.methods attr = some f) (hfree : o.lock = none)
+    (hto : ∀ kv ∈ kwargs, kv.1 ≠ timeoutKw)
+    (hp : ∀ v ∈ args ++ kwargs.map (·.2), P.decode (P.encode v) = some v)
+    (hres : ∀ v, (f args kwargs = .value v ∨ f args kwargs = .exc v) → P.decode (P.encode v) = some v) :
+    proxyCall pl P X mode (genParams mode) cli srv cc sc o (mkStubsWith (genBinding mode) iface) futureAddr objAddr
+        rid attr args kwargs stale
+      = directCall o attr args kwargs :=
+  proxy_eq_direct pl P X mode cli srv cc sc o iface futureAddr objAddr rid attr args kwargs stale f
+    hwf hattr hm (Or.inl hfree) hto hp hres
+
+/-- the "tokens equal" admission test is expressible and refuses a stale token on a free object -/
+theorem tokens_equal_test_refuses_stale_token :
+    decision exObj "echo" (some ⟨"cli", "$lock_1"⟩) = .call ∧
+    (exObj.lock = some (⟨"cli", "$lock_1"⟩ : Token)) = False := by
+  refine ⟨by decide, ?_⟩
+  simp [exObj]
+
 /-- HISTORICAL example, about the constant `helperParamsBeforeFix` (the helper signature up to 04de7e7), *not* about the
 source: with those parameter names `proxy.echo(context=0)` raised `TypeError` at the proxy although
 `obj.echo(context=0)` returns normally.  Repaired by 266e9a5; the harness still replays these calls on the real code,
